@@ -46,7 +46,9 @@ impl Delay {
 
 impl Effect for Delay {
 	fn init(&mut self, sample_rate: u32, internal_buffer_size: usize) {
-		let delay_time_frames = (self.delay_time.as_secs_f64() * sample_rate as f64) as usize;
+		// a delay shorter than one frame would leave the buffer empty (`chunks_mut(0)` panics)
+		let delay_time_frames =
+			((self.delay_time.as_secs_f64() * sample_rate as f64) as usize).max(1);
 		self.buffer = vec![Frame::ZERO; delay_time_frames];
 		self.temp_buffer = vec![Frame::ZERO; internal_buffer_size];
 		for effect in &mut self.feedback_effects {
@@ -55,7 +57,9 @@ impl Effect for Delay {
 	}
 
 	fn on_change_sample_rate(&mut self, sample_rate: u32) {
-		let delay_time_frames = (self.delay_time.as_secs_f64() * sample_rate as f64) as usize;
+		// a delay shorter than one frame would leave the buffer empty (`chunks_mut(0)` panics)
+		let delay_time_frames =
+			((self.delay_time.as_secs_f64() * sample_rate as f64) as usize).max(1);
 		self.buffer = vec![Frame::ZERO; delay_time_frames];
 		for effect in &mut self.feedback_effects {
 			effect.on_change_sample_rate(sample_rate);
